@@ -1,3 +1,4 @@
+// go2coqh (copy of go2coq with stage 8: --stdpkg, --devirt to a named slice type of the repository)
 // go2coq --repo DIR --out FILE --pkg PKGDIR --funcs A,B,T.M,... [--fuel F#N=COQNAT]... [--param pkg.Func=NAME]... [--iface S.f.M=NAME]...
 //
 // Translates a subset of Go functions of the repository into executable
@@ -38,10 +39,8 @@ func main() {
 	flag.Var(&fuels, "fuel", "Func#N=<Coq nat expression>: fuel of the N-th loop of Func (overrides the default)")
 	flag.Var(&params, "param", "pkg.Func=NAME: a call of this parameterless library function becomes the Coq variable NAME of the enclosing section")
 	flag.Var(&ifaces, "iface", "Struct.field.Method=NAME: a call of this interface method on a struct field becomes a call of the Coq function parameter NAME")
-	var shapes, objects, vias, devirts, packeds, splits multiFlag
-	chans := flag.Bool("chan", false, "channel values are opaque handles (Z); make(chan T), close(c), <-c become calls of the parameters chan_make, chan_close, chan_recv")
-	flag.Var(&packeds, "packed", "S: values of the struct S are opaque handles (Z) built by the pure parameter S_mk and read by the pure parameters S_<field>")
-	flag.Var(&splits, "split", "PKGDIR=FILE: the records and functions of the package PKGDIR go to FILE (next to --out), which the main file imports")
+	var shapes, objects, vias, devirts, stdpkgs multiFlag
+	flag.Var(&stdpkgs, "stdpkg", "import path of a package of the toolchain's standard library (resolved through GOROOT/src) whose functions are translated too; roots in it are named pkgname.Func")
 	flag.Var(&vias, "via", "S.f: the field f of the struct S points to a struct translated by value of which there is one instance; it is left out of the record, the methods of S take (and, when they modify it, return) that instance as an explicit parameter")
 	flag.Var(&devirts, "devirt", "I=S: values of the interface type I are pointers to the struct S; their method calls are calls of the methods of S")
 	flag.Var(&objects, "object", "S: pointers to the struct type S are object ids (Z, 0 = nil); the fields live in the heap, one array per object")
@@ -58,7 +57,7 @@ func main() {
 	if *require != "" {
 		req = strings.Split(*require, ",")
 	}
-	text, err := translate(*repo, *pkg, strings.Split(*funcs, ","), fuels, params, ifaces, shapes, req, objects, vias, devirts, packeds, splits, *chans, *printShapes)
+	text, err := translate(*repo, *pkg, strings.Split(*funcs, ","), fuels, params, ifaces, shapes, req, objects, vias, devirts, stdpkgs, *printShapes)
 	if err != nil {
 		fmt.Fprintln(os.Stderr, "go2coq:", err)
 		os.Exit(1)
@@ -71,35 +70,10 @@ func main() {
 		fmt.Fprintln(os.Stderr, "go2coq:", err)
 		os.Exit(1)
 	}
-	var extra []string
-	for _, sp := range splits {
-		f := sp[strings.Index(sp, "=")+1:]
-		if txt, ok := extraFiles[f]; ok {
-			if err := os.WriteFile(filepath.Join(filepath.Dir(*out), f), []byte(txt), 0o644); err != nil {
-				fmt.Fprintln(os.Stderr, "go2coq:", err)
-				os.Exit(1)
-			}
-			delete(extraFiles, f)
-			extra = append(extra, f)
-		}
-	}
 	if *selfcheck != "" {
 		// generated Gallina must always be well-formed: a file that does not
 		// compile is a defect of the translator, reported as "outside the subset"
-		for _, f := range extra {
-			cmd := exec.Command("coqc", "-Q", *selfcheck, "GL", "-Q", ".", "GLGEN", f)
-			cmd.Dir = filepath.Dir(*out)
-			if b, err := cmd.CombinedOutput(); err != nil {
-				os.Remove(*out)
-				fmt.Fprintln(os.Stderr, "go2coq: the generated file "+f+" does not compile (translator defect; treated as outside the subset):", string(b))
-				os.Exit(1)
-			}
-		}
-		args := []string{"-Q", *selfcheck, "GL"}
-		if len(extra) > 0 {
-			args = append(args, "-Q", ".", "GLGEN")
-		}
-		cmd := exec.Command("coqc", append(args, filepath.Base(*out))...)
+		cmd := exec.Command("coqc", "-Q", *selfcheck, "GL", filepath.Base(*out))
 		cmd.Dir = filepath.Dir(*out)
 		if b, err := cmd.CombinedOutput(); err != nil {
 			msg := string(b)
